@@ -8,12 +8,13 @@ SYSROOT=$(rustc +nightly --print sysroot)
 T=$(mktemp -d /tmp/factgen-target.XXXXXX)
 trap 'rm -rf "$T"' EXIT
 mkdir -p "$OUT"
-cp /repo/Cargo.lock /verif/fixtures/roots/Cargo.lock
-cd /verif/fixtures/roots
+FIXTURE="${FIXTURE:-roots}"
+if [ "$FIXTURE" = roots ]; then cp /repo/Cargo.lock /verif/fixtures/roots/Cargo.lock; fi
+cd /verif/fixtures/$FIXTURE
 LD_LIBRARY_PATH="$SYSROOT/lib" \
 RUSTFLAGS="-Zmir-opt-level=0 -Zalways-encode-mir -Awarnings --cfg zerocopy_derive_union_into_bytes ${EXTRA_RUSTFLAGS}" \
 RUSTC_WRAPPER=/verif/factgen/target/debug/factgen \
 FACTGEN_OUT="$OUT" \
-FACTGEN_CRATES=verif_roots,c2_chacha,blake_hash,groestl_aesni,jh_x86_64,skein_hash,threefish_cipher,ppv_lite86,ppv_null,crypto_simd \
+FACTGEN_CRATES=verif_roots,verif_controls,c2_chacha,blake_hash,groestl_aesni,jh_x86_64,skein_hash,threefish_cipher,ppv_lite86,ppv_null,crypto_simd \
 CARGO_TARGET_DIR="$T" CARGO_NET_OFFLINE=true \
 cargo +nightly check --offline "$@" 2>"$OUT/cargo.log" || { tail -30 "$OUT/cargo.log"; exit 2; }
